@@ -3,6 +3,7 @@ package props
 import (
 	"bytes"
 	"fmt"
+	"sort"
 	"testing"
 
 	"github.com/insomniacslk/dhcp/dhcpv4"
@@ -46,6 +47,11 @@ func c07Build(c gen.V4Case, pr c07Prog) *dhcpv4.DHCPv4 {
 		}
 	}
 	opt := func(i int) dhcpv4.Option {
+		if c.Opts[i].Code == 82 && pr.Kind != 0 {
+			if subs, ok := canonicalRAI(c.Opts[i].Val); ok {
+				return dhcpv4.OptRelayAgentInfo(subs...) // the typed constructor (encodes through Options.ToBytes)
+			}
+		}
 		return dhcpv4.OptGeneric(dhcpv4.GenericOptionCode(c.Opts[i].Code), append([]byte{}, c.Opts[i].Val...))
 	}
 	switch pr.Kind {
@@ -112,8 +118,17 @@ var c07 = newChk("C07", "canonical",
 	func(rec *obs.Rec, c c07Case) *obs.Fail {
 		want := c.Base.Ref()
 		var first []byte
+		var p0 *dhcpv4.DHCPv4
 		for pi, pr := range c.Progs {
 			p := c07Build(c.Base, pr)
+			if pi == 0 {
+				p0 = p
+			} else {
+				// an unrelated packet is built and encoded in between (other contents through the same code paths)
+				decoy, _ := dhcpv4.New(dhcpv4.WithOption(dhcpv4.OptRelayAgentInfo(dhcpv4.OptGeneric(dhcpv4.GenericOptionCode(1), []byte("decoy-circuit-id-0123456789")))), dhcpv4.WithGeneric(dhcpv4.GenericOptionCode(200), bytes.Repeat([]byte{0xEE}, 300)))
+				_ = decoy.ToBytes()
+				_ = decoy.Options.ToBytes()
+			}
 			var enc []byte
 			for rep := 0; rep < 8; rep++ {
 				e := p.ToBytes()
@@ -146,6 +161,12 @@ var c07 = newChk("C07", "canonical",
 				}
 			}
 		}
+		// the first packet, built before all the others, still encodes to the same bytes
+		if p0 != nil {
+			if e := p0.ToBytes(); !bytes.Equal(e, first) {
+				return obs.Failf("C07/nondeterministic/after-other-encodings", "a packet encodes to the same bytes after other packets were built and encoded", "differs at byte %d", firstDiff(e, first))
+			}
+		}
 		has82, long := false, false
 		for _, o := range c.Base.Opts {
 			if o.Code == 82 {
@@ -173,6 +194,27 @@ var c07 = newChk("C07", "canonical",
 		}
 		return nil
 	})
+
+// canonicalRAI parses a relay agent information value; ok when re-encoding its sub-options in ascending
+// code order reproduces exactly the value (so that building it through OptRelayAgentInfo is equivalent).
+func canonicalRAI(v []byte) ([]dhcpv4.Option, bool) {
+	m, order, why := refv4.DecodeOptions(v, false)
+	if why != refv4.OK || len(order) == 0 {
+		return nil, false
+	}
+	var subs []dhcpv4.Option
+	var re []byte
+	codes := append([]uint8{}, order...)
+	sort.Slice(codes, func(i, j int) bool { return codes[i] < codes[j] })
+	for _, c := range codes {
+		if c == 82 || c == 0 || c == 255 || len(m[c]) == 0 || len(m[c]) > 255 {
+			return nil, false
+		}
+		re = append(append(re, c, byte(len(m[c]))), m[c]...)
+		subs = append(subs, dhcpv4.OptGeneric(dhcpv4.GenericOptionCode(c), append([]byte{}, m[c]...)))
+	}
+	return subs, bytes.Equal(re, v)
+}
 
 func layoutKey(msg string) string {
 	switch {
@@ -236,7 +278,7 @@ func cmpRefRef(prefix string, want, got *refv4.Packet) *obs.Fail {
 
 func genC07() *rapid.Generator[c07Case] {
 	return rapid.Custom(func(t *rapid.T) c07Case {
-		c := c07Case{Base: gen.V4Packet(9, 1100).Draw(t, "pkt")}
+		c := c07Case{Base: gen.V4Packet(rapid.SampledFrom([]int{9, 9, 20, 30}).Draw(t, "maxopts"), 1100).Draw(t, "pkt")}
 		n := len(c.Base.Opts)
 		np := rapid.IntRange(2, 4).Draw(t, "nprogs")
 		for i := 0; i < np; i++ {
